@@ -199,6 +199,18 @@ func (m *Module) validateTable(enabledFeatures api.CoreFeatures, tables []Table,
 				if index >= globalsCount {
 					return fmt.Errorf("%s[%d].init[%d] global index %d out of range", SectionIDName(SectionIDElement), idx, ei, index)
 				}
+				// A constant expression may only read an immutable global (the value is captured at instantiation).
+				if index < m.ImportGlobalCount {
+					ig := Index(0)
+					for i := range m.ImportSection {
+						if imp := &m.ImportSection[i]; imp.Type == ExternTypeGlobal {
+							if ig == index && imp.DescGlobal.Mutable {
+								return fmt.Errorf("%s[%d].init[%d] global %d is mutable", SectionIDName(SectionIDElement), idx, ei, index)
+							}
+							ig++
+						}
+					}
+				}
 				// The value of the global becomes a table element as is: it must be a reference of the
 				// segment's type, otherwise e.g. an i64 constant would be used as a function pointer.
 				if vt, ok := m.globalValueType(index); ok && vt != elem.Type {
